@@ -243,7 +243,7 @@ def connect_step_preserves_invariant(H, case):
     H.cover("reached")
 
 
-@contract("connect_step_canary", ["C07"], canary=True, replayable=False, timeout_ms=20000, targets=["rv.project:Project.connect"])
+@contract("connect_step_canary", ["C07"], canary=True, replayable=False, timeout_ms=5000, targets=["rv.project:Project.connect"])
 def connect_step_canary(H, _):
     """Vacuity guard for the heap contract: the path condition (the assumed invariant) must not be
     contradictory, and a false post-condition must not be provable."""
